@@ -197,7 +197,8 @@ def fallback_differs(F, R):
     of a request-response resource falls back from the request storage to the RESPONSE storage; repeating the primary leaves the hint empty
     and the last owner does not remove the service's type-definition directory)."""
     n = 0
-    for f in F.find_fns(r'^<iceoryx2::service::resource::\w+::\w+<.*> as iceoryx2::service::resource::ServiceResource>::(open|create)$'):
+    # the fallback may live in open()/create() themselves or in a private helper of the resource module they share
+    for f in [g_ for g_ in F.fn_list if g_.crate == 'iceoryx2' and g_.kind != 'closure' and re.search(r'iceoryx2::service::resource::', g_.id)]:
         for l, ds in f.defs.items():
             if not isinstance(l, int) or len(ds) != 2 or not f.local_name(l):
                 continue
@@ -216,7 +217,7 @@ def fallback_differs(F, R):
             n += 1
             strip = lambda t: re.sub(r'closure\{[^}]*\}', 'closure', t)
             R.ob('FLOW', 'FLOW::%s::fallback-differs-from-primary' % fnkey(f), strip(terms[0]) != strip(terms[1]), 'primary `%s` ; fallback `%s`' % (terms[0][:110], terms[1][:110]), second.where, f)
-    R.floor('guarded fallback definitions in service resources', n, 2)
+    R.floor('guarded fallback definitions in service resources', n, 1)
 
 
 def _reaches(F, ty, target, seen=None, depth=0):
